@@ -538,11 +538,13 @@ pub fn c07(thorough: bool, shard: u64, nshards: u64) -> ProcOut {
         cases.push(("comb", 1_000_000));
         cases.push(("dag", 500_000));
         cases.push(("caterpillar", 2_000_000));
-        cases.push(("backlog", 1_800_000));
+        cases.push(("backlog", 2_400_000));
+        cases.push(("backlog", 6_000_000));
         cases.push(("fatchain", 200_000));
         cases.push(("wide-exit", 1_500_000));
     } else {
         cases.push(("chain", 1_000_000));
+        cases.push(("backlog", 2_400_000));
     }
     let mut peaks = Counts::default();
     let mut idx = 0u64;
@@ -591,11 +593,34 @@ pub fn c07(thorough: bool, shard: u64, nshards: u64) -> ProcOut {
             }
         }
     }
-    // flatness: peak stack use must not grow with n (chain 100k vs 1M)
-    let p1 = peaks.get("peak_stack|chain|n=100000");
-    let p2 = peaks.get("peak_stack|chain|n=1000000");
-    if p1 > 0 && p2 > 0 && p2 > p1 + p1 / 4 + 4096 {
-        report("C07", &format!("C07|stack-grows-with-n|{}", b), format!("peak stack {} bytes at n=100000 but {} bytes at n=1000000", p1, p2));
+    // flatness (shard 0): peak stack use must not grow with n, nor with the number of bags that are due at once
+    if shard == 0 {
+        for (shape, n1, n2, sig) in [("chain", 100_000usize, 1_000_000usize, "stack-grows-with-n"), ("backlog", 720_000, 2_400_000, "stack-grows-with-backlog")] {
+            let mut pk = [0u64; 2];
+            let mut ok = true;
+            for (k, n) in [n1, n2].iter().enumerate() {
+                let args: Vec<String> = ["c07child", "--shape", shape, "--n", &n.to_string(), "--stack", &(8usize << 20).to_string()].iter().map(|s| s.to_string()).collect();
+                let (code, sig_, so, _se, timed_out) = run_child(&args, Duration::from_secs(180));
+                mon::eval("stack-survive");
+                out.evaluations += 1;
+                if timed_out {
+                    out.inconclusive += 1;
+                    ok = false;
+                    continue;
+                }
+                if code != Some(0) || sig_.is_some() {
+                    ok = false; // reported by the main loop's case of the same shape
+                    continue;
+                }
+                pk[k] = field(&so, "peak_stack").unwrap_or(0);
+            }
+            out.distinct.insert(format!("{}|flatness|{}", b, shape));
+            if ok && pk[0] > 0 && pk[1] > pk[0] + pk[0] / 4 + 8192 {
+                report("C07", &format!("C07|{}|{}", sig, b), format!("{}: peak stack {} bytes at n={} but {} bytes at n={}", shape, pk[0], n1, pk[1], n2));
+            }
+            peaks.0.insert(format!("flatness|{}|n={}", shape, n1), pk[0]);
+            peaks.0.insert(format!("flatness|{}|n={}", shape, n2), pk[1]);
+        }
     }
     out.extra = J::obj().set("build", b).set("peak_stack", &peaks);
     out
